@@ -143,7 +143,8 @@ class GMRF(Distribution):
             self._rank = self.dim - nullity
             self._chol = sparse_cholesky(self._prec_op + np.sqrt(eps)*eye(self.dim, dtype=int)).T
             if (self.dim > config.MAX_DIM_INV):  # approximate to avoid 'excessive' time
-                self._logdet = 2*sum(np.log(self._chol.diagonal()))
+                # log det(P + sqrt(eps) I) contains log(sqrt(eps)) once per null direction of P: take it out
+                self._logdet = 2*sum(np.log(self._chol.diagonal())) - nullity*np.log(np.sqrt(eps))
             else:
                 self._L_eigval = splinalg.eigsh(self._prec_op.get_matrix(), self.dim - 1, which='LM', return_eigenvectors=False)
                 eigval = np.linalg.eigvalsh(self._prec_op.get_matrix().toarray())  # ascending
